@@ -135,6 +135,16 @@ func (e *Engine) renderScripts(obls []*Obligation, axioms, assumes []*Term) {
 		s = strings.Replace(s, "(check-sat)\n", "(check-sat)\n(get-model)\n", 1)
 		o.script = s
 		o.SMTLen = len(s)
+		// abstraction variant: large string concatenations that occur more than
+		// once are replaced by fresh constants.  Forgetting their structure can
+		// only lose proofs, so "unsat" of the variant is a valid proof; any
+		// other answer of the variant is ignored.
+		if !o.Cover {
+			if abs, changed := abstractStrings(asserts); changed {
+				s3 := Script(abs, false, nil)
+				o.scriptAbs = s3
+			}
+		}
 		// quantifier-free variant: used to look for candidate models when the
 		// full query is undecided (a model of fewer assumptions may be spurious:
 		// it only counts once it replays on the real code), and to cross-check
@@ -179,7 +189,20 @@ func (e *Engine) runScripts(obls []*Obligation, dir string, timeoutS int, pool c
 			if o.Cover && tmo > 6 {
 				tmo = 6
 			}
+			var absCh chan solveResult
+			if o.scriptAbs != "" {
+				fa := filepath.Join(dir, name+".abs.smt2")
+				os.WriteFile(fa, []byte("; abstraction variant of "+o.ID+"\n"+o.scriptAbs), 0o644)
+				absCh = make(chan solveResult, 1)
+				go func() { absCh <- runPortfolio(fa, tmo, false) }()
+			}
 			r := runPortfolio(f, tmo, needAll && !o.Cover)
+			if absCh != nil {
+				ra := <-absCh
+				if r.status != "unsat" && r.status != "sat" && ra.status == "unsat" {
+					r.status, r.solver, r.secs = "unsat", ra.solver+"(abs)", ra.secs
+				}
+			}
 			if r.status != "unsat" && r.status != "sat" && o.scriptQF != "" {
 				f2 := filepath.Join(dir, name+".qf.smt2")
 				os.WriteFile(f2, []byte("; quantifier-free variant of "+o.ID+"\n"+o.scriptQF), 0o644)
@@ -205,6 +228,7 @@ func (e *Engine) runScripts(obls []*Obligation, dir string, timeoutS int, pool c
 			o.allSolvers = r.all
 			o.script = ""
 			o.scriptQF = ""
+			o.scriptAbs = ""
 			mu.Unlock()
 		}()
 	}
@@ -278,4 +302,59 @@ func hasQuant(t *Term, memo map[int]bool) bool {
 	}
 	memo[t.id] = r
 	return r
+}
+
+// abstractStrings replaces string concatenations with at least four parts
+// that are referenced more than once by fresh constants.
+func abstractStrings(asserts []*Term) ([]*Term, bool) {
+	refs := map[int]int{}
+	seen := map[int]bool{}
+	var count func(t *Term)
+	count = func(t *Term) {
+		for _, a := range t.Args {
+			refs[a.id]++
+			if !seen[a.id] {
+				seen[a.id] = true
+				count(a)
+			}
+		}
+	}
+	for _, a := range asserts {
+		count(a)
+	}
+	memo := map[int]*Term{}
+	changed := false
+	var sub func(t *Term) *Term
+	sub = func(t *Term) *Term {
+		if len(t.Args) == 0 || t.Op == "forall" {
+			return t
+		}
+		if r, ok := memo[t.id]; ok {
+			return r
+		}
+		var r *Term
+		if t.Op == "str.++" && len(t.Args) >= 4 && refs[t.id] >= 2 && !t.hasBound {
+			r = Sym(fmt.Sprintf("abs!%d", t.id), StringS)
+			changed = true
+		} else {
+			args := make([]*Term, len(t.Args))
+			ch := false
+			for i, a := range t.Args {
+				args[i] = sub(a)
+				ch = ch || args[i] != a
+			}
+			if ch {
+				r = mk(t.Op, t.Sort, args...)
+			} else {
+				r = t
+			}
+		}
+		memo[t.id] = r
+		return r
+	}
+	out := make([]*Term, len(asserts))
+	for i, a := range asserts {
+		out[i] = sub(a)
+	}
+	return out, changed
 }
